@@ -120,6 +120,57 @@ def f_candidates(F, res):
             meet_read = True
         else:
             bad.append((line, fld))
+    # S-TOPUP: where a top-up from the wider field exists, it may be skipped only because the window is already full: every
+    # path from the `Some(limit)` edge to a return that does not pass the top-up passes a branch whose condition depends on
+    # the limit.  (Skipping it for another reason - "the intersection is empty" - leaves queries whose constraints are met by
+    # different UTxOs without candidates.)  Not applicable when take() has no top-up.
+    topup = {bi for bi, line, fld in reads if fld not in meet and not any(none_t is not None and cfg.dominates(none_t, bi) for (sb, none_t, some_t) in sw)}
+    if topup:
+        du = mir.DefUse(f)
+
+        def dep_on_limit(local, depth=0, seen=None):
+            seen = seen if seen is not None else set()
+            if local in seen or depth > 8:
+                return False
+            seen.add(local)
+            if local == 2:
+                return True
+            for d in du.defs.get(local, []):
+                if d[0] == "call":
+                    ops = d[3]["args"]
+                else:
+                    rv = d[3]["rv"]
+                    ops = [rv.get(k) for k in ("op", "a", "b") if rv.get(k) is not None] + list(rv.get("ops") or [])
+                    if rv.get("pl") is not None:
+                        ops.append({"cp": rv["pl"]})
+                for o in ops:
+                    pl = mir.op_place(o) if isinstance(o, dict) else None
+                    if pl is not None and dep_on_limit(pl["l"], depth + 1, seen):
+                        return True
+            return False
+        guards = set()
+        for bi, b in enumerate(f["blocks"]):
+            if b["t"]["k"] == "switch":
+                pl = mir.op_place(b["t"]["discr"])
+                if pl is not None and dep_on_limit(pl["l"]):
+                    guards.add(bi)
+        some_ts = [some_t for (sb, none_t, some_t) in sw if some_t is not None and sb not in topup]
+        seen, st, skip_ret = set(), list(some_ts), None
+        while st:
+            b = st.pop()
+            if b in seen or b in topup or f["blocks"][b]["cleanup"]:
+                continue
+            seen.add(b)
+            if b in guards and b not in [sb for (sb, _, _) in sw]:
+                continue
+            if f["blocks"][b]["t"]["k"] == "return":
+                skip_ret = b
+            st.extend(cfg.succ[b])
+        key_t = f["path"] + "|the top-up is skipped only when the window is full"
+        if skip_ret is not None:
+            res.add([finding("S-TOPUP", key_t, w, "with a limit, take() can return without topping the candidates up although no test of the limit was passed: when the constraints are met by different UTxOs (empty intersection) the block gets no candidates at all")])
+        else:
+            res.add([ok("S-TOPUP", key_t, w, "every path that skips the top-up passes a comparison with the limit")])
     if bad:
         res.add([finding("F-CANDIDATES", key + "|reads the union", where(f, bad[0][0]), "when a limit is given, take() tops the candidates up from `%s`, which holds the *union* of the constraints: a UTxO that satisfies only one of them (e.g. the ref but not the address) becomes a candidate" % bad[0][1])])
     elif not meet_read:
@@ -527,6 +578,7 @@ _KEEP = []
 def run(ctx):
     F = ctx.F
     res = Result("C03")
+    res.rule("S-TOPUP", "where candidates are topped up from the wider set, the top-up is skipped only because the window is full")
     res.rule("F-CANDIDATES", "bounded candidate sets come from the intersection of the constraints only")
     res.rule("S-INCLUDE", "every stated constraint narrows the search space; canonicalisation drops none")
     res.rule("S-COLLATERAL", "collateral candidates are pure-lovelace")
